@@ -565,6 +565,45 @@ pub fn ladder_inputs(ty: i32, n: u64, with_m: bool, backing: usize) -> Vec<(Stri
                 shp.extend_from_slice(&[0u8; 96]);
                 out.push((format!("{} declaring {} points (m={}), {}", type_name(ty), n, with_m, what), shp, mk_shx(50, words)));
             }
+            // the index is not in storage order: a small complete record is stored first, the record
+            // declaring the count behind it, and the .shx lists the latter first - an indexed iteration
+            // has to seek, and the sizes it could trust (index entry, header length) are only declared
+            {
+                let small = content_size(ty, 1, 2, with_m) as u64;
+                let content = content_size(ty, 1, n as usize, with_m) as u64;
+                let words = clamp_words(content);
+                let mut shp = hdr(ty, clamp_words(100 + 8 + small + 8 + content));
+                shp.extend_from_slice(&1i32.to_be_bytes());
+                shp.extend_from_slice(&((small / 2) as i32).to_be_bytes());
+                shp.extend_from_slice(&ty.to_le_bytes());
+                shp.extend_from_slice(&[0u8; 32]);
+                shp.extend_from_slice(&1i32.to_le_bytes());
+                shp.extend_from_slice(&2i32.to_le_bytes());
+                shp.extend_from_slice(&0i32.to_le_bytes());
+                if ty == 31 {
+                    shp.extend_from_slice(&0i32.to_le_bytes());
+                }
+                let rest = 100 + 8 + small as usize - shp.len();
+                shp.extend_from_slice(&vec![0u8; rest]);
+                let second_at = shp.len();
+                shp.extend_from_slice(&2i32.to_be_bytes());
+                shp.extend_from_slice(&words.to_be_bytes());
+                shp.extend_from_slice(&ty.to_le_bytes());
+                shp.extend_from_slice(&[0u8; 32]);
+                shp.extend_from_slice(&1i32.to_le_bytes());
+                shp.extend_from_slice(&(n as i32).to_le_bytes());
+                shp.extend_from_slice(&0i32.to_le_bytes());
+                if ty == 31 {
+                    shp.extend_from_slice(&0i32.to_le_bytes());
+                }
+                shp.extend_from_slice(&[0u8; 64]);
+                let mut shx = hdr(ty, 58);
+                shx.extend_from_slice(&((second_at / 2) as i32).to_be_bytes());
+                shx.extend_from_slice(&words.to_be_bytes());
+                shx.extend_from_slice(&50i32.to_be_bytes());
+                shx.extend_from_slice(&((small / 2) as i32).to_be_bytes());
+                out.push((format!("{} declaring {} points (m={}) stored behind a complete record, listed first by the index", type_name(ty), n, with_m), shp, shx));
+            }
         }
     }
     out
@@ -654,6 +693,28 @@ pub fn ladder_unit(unit: u64, ctx: &mut Ctx, ctl: &mut UnitCtl) {
                 shx.extend_from_slice(&words.to_be_bytes());
                 inputs.push((format!("null record declaring {} content words in a {} file", words, type_name(ty)), shp, shx));
             }
+        }
+        // a long run of null records (legal in a file of any type) followed by one point: whatever
+        // a reader does about a null record, it does it 400 000 times in a row
+        {
+            let nulls = 400_000usize;
+            let mut shp = hdr(1, ((100 + 12 * nulls + 28) / 2) as i32);
+            let mut shx = hdr(1, ((100 + 8 * (nulls + 1)) / 2) as i32);
+            for i in 0..nulls {
+                shx.extend_from_slice(&((shp.len() / 2) as i32).to_be_bytes());
+                shx.extend_from_slice(&2i32.to_be_bytes());
+                shp.extend_from_slice(&((i + 1) as i32).to_be_bytes());
+                shp.extend_from_slice(&2i32.to_be_bytes());
+                shp.extend_from_slice(&0i32.to_le_bytes());
+            }
+            shx.extend_from_slice(&((shp.len() / 2) as i32).to_be_bytes());
+            shx.extend_from_slice(&10i32.to_be_bytes());
+            shp.extend_from_slice(&((nulls + 1) as i32).to_be_bytes());
+            shp.extend_from_slice(&10i32.to_be_bytes());
+            shp.extend_from_slice(&1i32.to_le_bytes());
+            shp.extend_from_slice(&1.5f64.to_le_bytes());
+            shp.extend_from_slice(&2.5f64.to_le_bytes());
+            inputs.push((format!("{} null records followed by one point in a Point file", nulls), shp, shx));
         }
         for n in LADDER {
             for present in [1usize, 4096, 4097, 9000] {
